@@ -30,6 +30,9 @@ use vcore::Chooser;
 pub enum Step {
     /// full answer after `ms`
     Answer(u64),
+    /// full answer after `ms`, after which the server closes this connection: the next request on
+    /// the same connection object fails at once with a connection-closed error
+    AnswerClose(u64),
     /// NXDOMAIN (with SOA) after `ms`
     NxDomain(u64),
     /// NOERROR/NODATA (with SOA) after `ms`
@@ -54,6 +57,7 @@ impl Step {
     pub fn to_s(self) -> String {
         match self {
             Step::Answer(l) => format!("answer:{l}"),
+            Step::AnswerClose(l) => format!("answerclose:{l}"),
             Step::NxDomain(l) => format!("nxdomain:{l}"),
             Step::NoData(l) => format!("nodata:{l}"),
             Step::Truncated(l) => format!("truncated:{l}"),
@@ -73,6 +77,7 @@ impl Step {
         };
         match k {
             "answer" => Step::Answer(l),
+            "answerclose" => Step::AnswerClose(l),
             "nxdomain" => Step::NxDomain(l),
             "nodata" => Step::NoData(l),
             "truncated" => Step::Truncated(l),
@@ -250,6 +255,8 @@ pub struct NetState {
     conn_counters: BTreeMap<usize, usize>,
     pub log: Vec<Ev>,
     serial: u64,
+    next_conn: u64,
+    dead_conns: std::collections::BTreeSet<u64>,
     pub chooser: Option<Chooser>,
     pub udp_alphabet: Vec<Step>,
     pub tcp_alphabet: Vec<Step>,
@@ -280,6 +287,8 @@ impl Net {
                     conn_counters: BTreeMap::new(),
                     log: vec![],
                     serial: 0,
+                    next_conn: 0,
+                    dead_conns: Default::default(),
                     chooser,
                     udp_alphabet: vec![],
                     tcp_alphabet: vec![],
@@ -381,6 +390,26 @@ impl Net {
         }
     }
 
+    fn new_conn_id(&self) -> u64 {
+        let mut st = self.inner.state.lock().unwrap();
+        st.next_conn += 1;
+        st.next_conn
+    }
+    fn is_dead(&self, id: u64) -> bool {
+        self.inner.state.lock().unwrap().dead_conns.contains(&id)
+    }
+    fn kill(&self, id: u64) {
+        self.inner.state.lock().unwrap().dead_conns.insert(id);
+    }
+    /// Log a request on a connection the peer has closed (consumes no script step).
+    fn log_closed(&self, srv: usize, tcp: bool, tag: u8, owner: u16) {
+        let now = self.ms();
+        let mut st = self.inner.state.lock().unwrap();
+        st.serial += 1;
+        let serial = st.serial;
+        st.log.push(Ev { serial, owner, connect: false, srv, tcp, tag, k: usize::MAX, start: now, end: Some(now), step: "closed".into() });
+    }
+
     pub fn log(&self) -> Vec<Ev> {
         self.inner.state.lock().unwrap().log.clone()
     }
@@ -417,6 +446,8 @@ pub struct Conn {
     net: Net,
     srv: usize,
     tcp: bool,
+    /// identity of this connection object (a closed connection stays closed)
+    id: u64,
 }
 
 impl DnsHandle for Conn {
@@ -427,7 +458,12 @@ impl DnsHandle for Conn {
         let q = request.queries[0].clone();
         let id = request.id;
         let tag = tag_of(&q.name);
+        if self.net.is_dead(self.id) {
+            self.net.log_closed(self.srv, self.tcp, tag, id);
+            return Box::pin(stream::once(async move { Err(io_err(std::io::ErrorKind::BrokenPipe, "connection closed by peer")) }));
+        }
         let (step, serial) = self.net.next_step(self.srv, self.tcp, tag, id);
+        let conn_id = self.id;
         let net = self.net.clone();
         let (srv, tcp) = (self.srv, self.tcp);
         let timeout_ms = self.net.inner.timeout_ms;
@@ -441,8 +477,11 @@ impl DnsHandle for Conn {
                 m
             };
             let r = match step {
-                Step::Answer(l) => {
+                Step::Answer(l) | Step::AnswerClose(l) => {
                     sleep(l).await;
+                    if matches!(step, Step::AnswerClose(_)) {
+                        net.kill(conn_id);
+                    }
                     let mut m = msg(ResponseCode::NoError);
                     m.add_answer(Record::from_rdata(
                         q.name.clone(),
@@ -516,12 +555,13 @@ impl ConnectionProvider for Net {
         let srv = server_of(ip);
         let net = self.clone();
         if !tcp {
-            return Ok(Box::pin(async move { Ok(Conn { net, srv, tcp }) }));
+            let id = self.new_conn_id();
+            return Ok(Box::pin(async move { Ok(Conn { net, srv, tcp, id }) }));
         }
         let (step, serial) = self.next_conn_step(srv);
         Ok(Box::pin(async move {
             let r = match step {
-                ConnStep::Ok => Ok(Conn { net: net.clone(), srv, tcp }),
+                ConnStep::Ok => Ok(Conn { net: net.clone(), srv, tcp, id: net.new_conn_id() }),
                 ConnStep::Refused(l) => {
                     tokio::time::sleep(Duration::from_millis(l)).await;
                     Err(io_err(std::io::ErrorKind::ConnectionRefused, "tcp connect refused"))
